@@ -136,6 +136,24 @@ example :
       ∧ parseT (ladderTable ladder).ops (printMinT pyOps t) = some (normalizeT pyOps t) := by
   refine ⟨by decide +kernel, by decide +kernel, by decide +kernel⟩
 
+/-! ## the reference lexer and the grammar's keywords -/
+
+/-- The words the reference lexer treats specially are exactly accounted for by the generated keyword facts (read off
+    lark's LALR table of grammar.lark): its operator words and constants are keyword terminals of the grammar; the words
+    that open a statement without being able to start an expression (`statementStartWords`, rejected at the start of a
+    text) are keyword terminals, and `if` is the only one of them the expression grammar uses elsewhere; the soft keywords
+    (`match`, `case`) are keyword terminals that are alternatives of the rule `name`. Every other keyword of the grammar is
+    nowhere acceptable inside an `expression`, hence a NAME wherever the model lexes one. -/
+theorem lexer_keywords :
+    (keywordOps.all fun w => Generated.GrammarLadder.reservedWords.contains w) = true
+    ∧ (constNames.all fun w => Generated.GrammarLadder.reservedWords.contains w) = true
+    ∧ (Generated.GrammarLadder.statementStartWords.all fun w => Generated.GrammarLadder.reservedWords.contains w) = true
+    ∧ (Generated.GrammarLadder.statementStartWords.filter fun w => keywordOps.contains w || constNames.contains w) = [c!"if"]
+    ∧ (Generated.GrammarLadder.softNameWords.all fun p => Generated.GrammarLadder.reservedWords.contains p.1
+        && !keywordOps.contains p.1 && !Generated.GrammarLadder.statementStartWords.contains p.1) = true
+    ∧ Generated.GrammarLadder.statementStartWords.length = 16 := by
+  decide +kernel
+
 /-! ## comparison chains, `not`, the sign operators -/
 
 /-- levels CPython (and, by `ladder_eq_python`, the grammar) gives the prefix operators and the comparisons: `not` (2) is
